@@ -50,6 +50,9 @@ type hC02DB struct {
 	puts    []hC02Put
 	deletes []hC02Put
 	failPut map[string]bool // store name -> Put fails
+	// lag: how long after its deadline an entry is still handed out ("can happen between token
+	// expiration and pruning of database", api.go). Zero unless a harness sets it.
+	lag time.Duration
 }
 
 func newHC02DB() *hC02DB { return &hC02DB{data: map[string][]hC02Entry{}, failPut: map[string]bool{}} }
@@ -64,7 +67,7 @@ func (d *hC02DB) live(store, key string) int {
 	es := d.data[store]
 	for i := len(es) - 1; i >= 0; i-- {
 		if es[i].key == key {
-			if hC02Clock.After(es[i].deadline) {
+			if hC02Clock.After(es[i].deadline.Add(d.lag)) {
 				return -1
 			}
 			return i
